@@ -130,3 +130,254 @@ func c19r3(rc *core.RC) {
 	rc.Check(guard, "encoder.getFilteredCodeSetIfNeeded/needs-context-option", fd.Pos(), "without ContextOption the unfiltered program is returned before the context is consulted")
 	_ = fmt.Sprint
 }
+
+// ---- C19.R4 nested consumers of the query use the opcode's own sub-query ----
+
+func c19r4(rc *core.RC) {
+	p := rc.P
+	isCodeFieldQuery := func(info *types.Info, e ast.Expr) bool {
+		f := core.FieldOf(info, e)
+		if f == nil || f.Name() != "FieldQuery" {
+			return false
+		}
+		sel, ok := core.Unparen(e).(*ast.SelectorExpr)
+		if !ok {
+			return false
+		}
+		o := core.ObjOf(info, sel.X)
+		return o != nil && strings.HasSuffix(o.Type().String(), "encoder.Opcode")
+	}
+	// (a) every SetFieldQueryToContext in the encoder and the interpreters installs code.FieldQuery
+	nset := 0
+	for _, short := range append([]string{"encoder"}, core.VMPkgs...) {
+		for _, fd := range p.Funcs(short) {
+			if fd.Body == nil {
+				continue
+			}
+			info := p.Info(fd)
+			k := 0
+			ast.Inspect(fd.Body, func(m ast.Node) bool {
+				call, ok := m.(*ast.CallExpr)
+				if !ok || core.CalleeName(info, call) != "encoder.SetFieldQueryToContext" || len(call.Args) != 2 {
+					return true
+				}
+				nset++
+				k++
+				rc.Touch(p.FuncName(fd))
+				rc.Check(isCodeFieldQuery(info, call.Args[1]), fmt.Sprintf("%s/SetFieldQueryToContext#%d", p.FuncName(fd), k), call.Pos(),
+					"the query handed on is the current opcode's FieldQuery (got `%s`)", types.ExprString(call.Args[1]))
+				return true
+			})
+		}
+	}
+	if nset < 6 {
+		rc.Unknown("encoder/SetFieldQueryToContext-sites", token.NoPos, "found %d calls (two marshaler helpers and one interface handler per interpreter expected)", nset)
+	}
+	// (b) a program compiled while interpreting (dynamic value of an interface) is compiled under the opcode's sub-query
+	for _, short := range core.VMPkgs {
+		fd := p.Func(short, "Run")
+		if fd == nil {
+			rc.Unknown(short+".Run", token.NoPos, "not found")
+			continue
+		}
+		info := p.Info(fd)
+		n := 0
+		ast.Inspect(fd.Body, func(m ast.Node) bool {
+			cc, ok := m.(*ast.CaseClause)
+			if !ok {
+				return true
+			}
+			var compile *ast.CallExpr
+			for _, st := range cc.Body {
+				ast.Inspect(st, func(k ast.Node) bool {
+					if c, ok := k.(*ast.CallExpr); ok && core.CalleeName(info, c) == "encoder.CompileToGetCodeSet" {
+						compile = c
+					}
+					return true
+				})
+			}
+			if compile == nil {
+				return true
+			}
+			n++
+			label := "case"
+			if len(cc.List) > 0 {
+				label = "case " + types.ExprString(cc.List[0])
+			}
+			key := short + ".Run/" + label + "/compile-under-sub-query"
+			rc.Touch(short + ".Run")
+			// ctx.Option.Context = SetFieldQueryToContext(saved, code.FieldQuery) before the call, guarded by FieldQueryOption only
+			var set, restore *ast.AssignStmt
+			var guard *ast.IfStmt
+			var saved types.Object
+			isCtxContext := func(e ast.Expr) bool {
+				f := core.FieldOf(info, e)
+				return f != nil && f.Name() == "Context" && strings.HasSuffix(f.Pkg().Path(), "internal/encoder")
+			}
+			var walk func(list []ast.Stmt, g *ast.IfStmt)
+			walk = func(list []ast.Stmt, g *ast.IfStmt) {
+				for _, st := range list {
+					switch x := st.(type) {
+					case *ast.AssignStmt:
+						if len(x.Lhs) == 1 && len(x.Rhs) == 1 {
+							if isCtxContext(x.Lhs[0]) {
+								if c, ok := core.Unparen(x.Rhs[0]).(*ast.CallExpr); ok && core.CalleeName(info, c) == "encoder.SetFieldQueryToContext" && x.Pos() < compile.Pos() {
+									set, guard = x, g
+								} else if o := core.ObjOf(info, x.Rhs[0]); o != nil && o == saved && x.Pos() > compile.End() && restore == nil {
+									restore = x
+								}
+							} else if isCtxContext(x.Rhs[0]) && x.Pos() < compile.Pos() {
+								saved = core.ObjOf(info, x.Lhs[0])
+							}
+						}
+					case *ast.IfStmt:
+						walk(x.Body.List, x)
+					}
+				}
+			}
+			walk(cc.Body, nil)
+			switch {
+			case set == nil:
+				rc.Bad(key, compile.Pos(), "the dynamic value's program is compiled under the context's root query: a sub-query below an interface-typed member is ignored and the root's field names are applied to the inner value instead")
+			case guard != nil && !strings.Contains(core.Src(p.Fset, guard.Cond), "FieldQueryOption"):
+				rc.Bad(key, set.Pos(), "the sub-query is installed only under `%s`", core.Src(p.Fset, guard.Cond))
+			case guard != nil && (strings.Contains(core.Src(p.Fset, guard.Cond), "&&") || guard.Else != nil):
+				rc.Bad(key, set.Pos(), "the sub-query is installed only under `%s`, which is narrower than the FieldQueryOption flag", core.Src(p.Fset, guard.Cond))
+			case restore == nil:
+				rc.Bad(key, compile.Pos(), "ctx.Option.Context is not put back after the compile call: the following members are encoded under this member's sub-query context")
+			default:
+				// no return between the compile call and the restore
+				early := false
+				for _, st := range cc.Body {
+					ast.Inspect(st, func(k ast.Node) bool {
+						if r, ok := k.(*ast.ReturnStmt); ok && r.Pos() > compile.End() && r.Pos() < restore.Pos() {
+							early = true
+						}
+						return true
+					})
+				}
+				rc.Check(!early, key, compile.Pos(), "compiled under code.FieldQuery when a query is active, context restored right after the call")
+			}
+			return true
+		})
+		if n == 0 {
+			rc.Unknown(short+".Run/compile-sites", fd.Pos(), "no CompileToGetCodeSet call found in the interpreter")
+		}
+	}
+}
+
+// ---- C19.R5 what Filter changes is what ToOpcode compiles ----
+
+func c19r5(rc *core.RC) {
+	p := rc.P
+	n := 0
+	for _, fd := range p.Funcs("encoder") {
+		if fd.Recv == nil || fd.Body == nil || fd.Name.Name != "Filter" || len(fd.Recv.List[0].Names) == 0 {
+			continue
+		}
+		info := p.Info(fd)
+		recv := info.Defs[fd.Recv.List[0].Names[0]]
+		tname := ""
+		if pt, ok := recv.Type().(*types.Pointer); ok {
+			if nt, ok := pt.Elem().(*types.Named); ok {
+				tname = nt.Obj().Name()
+			}
+		}
+		if tname == "" {
+			continue
+		}
+		// fields of the rebuilt receiver that do not simply carry over c.<field>
+		changed := map[string]bool{}
+		ast.Inspect(fd.Body, func(m ast.Node) bool {
+			cl, ok := m.(*ast.CompositeLit)
+			if !ok {
+				return true
+			}
+			tv := info.Types[cl]
+			if nt, ok := tv.Type.(*types.Named); !ok || nt.Obj().Name() != tname {
+				return true
+			}
+			for _, el := range cl.Elts {
+				kv, ok := el.(*ast.KeyValueExpr)
+				if !ok {
+					continue
+				}
+				k := kv.Key.(*ast.Ident).Name
+				if sel, ok := core.Unparen(kv.Value).(*ast.SelectorExpr); ok && sel.Sel.Name == k && core.ObjOf(info, sel.X) == recv {
+					continue
+				}
+				if k == "fieldQuery" {
+					continue // carried to the opcode as data, checked by C19.R4
+				}
+				changed[k] = true
+			}
+			return true
+		})
+		if len(changed) == 0 {
+			continue
+		}
+		for _, mname := range []string{"ToOpcode", "ToAnonymousOpcode"} {
+			md := p.Func("encoder", tname+"."+mname)
+			if md == nil || md.Body == nil || len(md.Recv.List[0].Names) == 0 {
+				continue
+			}
+			minfo := p.Info(md)
+			mrecv := minfo.Defs[md.Recv.List[0].Names[0]]
+			cf := core.BuildCFG(md.Body, minfo)
+			// nodes that read a changed field of the receiver
+			reads := func(nd ast.Node) bool {
+				found := false
+				ast.Inspect(nd, func(k ast.Node) bool {
+					if sel, ok := k.(*ast.SelectorExpr); ok && changed[sel.Sel.Name] && core.ObjOf(minfo, sel.X) == mrecv {
+						found = true
+					}
+					return true
+				})
+				return found
+			}
+			fn := "encoder.(*" + tname + ")." + mname
+			rc.Touch(fn)
+			for i, ret := range cf.Returns() {
+				n++
+				rb, ri := cf.BlockOf(ret)
+				where := "tail"
+				path := core.PathTo(md.Body, ret)
+				for j := len(path) - 1; j >= 0; j-- {
+					if ifs, ok := path[j].(*ast.IfStmt); ok {
+						where = "if " + core.Src(p.Fset, ifs.Cond)
+						break
+					}
+				}
+				_ = i
+				key := fmt.Sprintf("%s/return under `%s` depends-on-%s", fn, where, strings.Join(keysOf(changed), ","))
+				if rb == nil {
+					rc.Unknown(key, ret.Pos(), "return not in the CFG")
+					continue
+				}
+				ok := reads(ret)
+				for _, b := range cf.G.Blocks {
+					if ok {
+						break
+					}
+					for ni, nd := range b.Nodes {
+						if !reads(nd) {
+							continue
+						}
+						if (b == rb && ni < ri) || (b != rb && cf.Dominates(b, rb)) {
+							ok = true
+							break
+						}
+					}
+				}
+				if ok {
+					rc.OK(key, ret.Pos(), "the program returned here is built from the part Filter rebuilds")
+				} else {
+					rc.Bad(key, ret.Pos(), "%s returns a program here without reading %s, the only part of a %s that Filter changes: on this path a filtered and an unfiltered %s compile to the same program, so the query below this point is lost", mname, strings.Join(keysOf(changed), ","), tname, tname)
+				}
+			}
+		}
+	}
+	if n < 8 {
+		rc.Unknown("encoder/filterable-codes", token.NoPos, "found %d returns of ToOpcode methods of filterable Code types", n)
+	}
+}
